@@ -15,6 +15,8 @@ import AbraModel.Drv.Sem
 import AbraModel.Drv.Arr
 import AbraModel.Drv.F64
 import AbraModel.Drv.Opt
+import AbraModel.Drv.Names
+import AbraModel.Drv.PreludeCmp
 import AbraModel.Drv.Render
 /- Line-protocol model driver: one request per input line (`<component> <args…>`), one answer per line. -/
 open Abra.Drv
@@ -38,11 +40,14 @@ def dispatch (line : String) : String :=
   | "str" :: rest => handleStr rest
   | "srcmap" :: rest => handleSrcMap rest
   | "sched" :: rest => handleSched rest
+  | "hostcall" :: rest => handleHostCall rest
   | "pm" :: rest => handlePatMatrix rest
   | "sem" :: rest => handleSem rest
   | "arr" :: rest => handleArr rest
   | "f64" :: rest => handleF64 rest
   | "opt" :: rest => handleOpt rest
+  | "names" :: rest => handleNames rest
+  | "cmp24" :: rest => handleCmp24 rest
   | "render" :: rest => handleRender rest
   | _ => "bad-op"
 
